@@ -8,6 +8,7 @@
 (*        <<index, sequence of <<rank, accepted others, rejected others>>>> *)
 (*   crev plusZero fixp fixm kind result gp gm bound                       *)
 (*        result "ok" with the parameters, "none", or "error"              *)
+(*   crevfront vectors bound   (c_revision_pareto_front, gamma+ = 0)       *)
 (***************************************************************************)
 EXTENDS Revision, Json, IOUtils
 
@@ -60,7 +61,21 @@ TCRev ==
                   Admissible(E.prior, conds, Cur.pbound, Cur.bound, Cur.plusZero, fixp, fixm) = {}
              [] OTHER -> FALSE            \* it never raises
 
-TMatch == TAdd \/ TAddFail \/ TRemove \/ TCompile \/ TCRev
+(* beyond the listed property: c_revision_pareto_front with gamma+ = 0 returns exactly the Pareto-minimal gamma-  *)
+(* vectors (each once; complete up to the stated bound)                                                          *)
+TCRevFront ==
+    /\ IsEvent("crevfront") /\ UNCHANGED rvars
+    /\ LET D == DOMAIN conds
+           zero == [i \in D |-> 0]
+           none == [i \in {} |-> 0]
+           vs == {FunOf(Cur.vectors[j], D) : j \in DOMAIN Cur.vectors}
+           ok(g) == RevOK(E.prior, conds, zero, g, none, none)
+           box == {g \in [D -> 0..Cur.bound] : ok(g)}
+       IN  /\ Cardinality(vs) = Len(Cur.vectors)
+           /\ \A g \in vs : ok(g) /\ SmallerMinus(E.prior, conds, zero, g, none, none) = {}
+           /\ \A g \in {b \in box : ~\E c \in box : VecLess(c, b)} : g \in vs
+
+TMatch == TAdd \/ TAddFail \/ TRemove \/ TCompile \/ TCRev \/ TCRevFront
 
 Reject ==
     /\ t > 0 /\ l <= Len(Ev) /\ ~ENABLED TMatch
